@@ -36,6 +36,8 @@ def cases(tier, seed):
     nt = 96 if tier == "quick" else 1200
     for k in range(nt):
         out.append({"gen": "tree", "id": "tree-%d" % k, "sub": seed * 100003 + k})
+    for k in range(32 if tier == "quick" else 300):
+        out.append({"gen": "tree", "id": "tree-nan-%d" % k, "sub": seed * 100003 + 9000 + k, "force": "nan-trained"})
     for k in range(4):
         out.append({"gen": "tree", "id": "tree-asan-%d" % k, "sub": seed * 100003 + 7000 + k, "flavour": "asan"})
     for k in range(6 if tier == "quick" else 40):
@@ -190,17 +192,26 @@ def run_f64(case, ctx):
             x[j], bins[min(int(exp[j]), n - 1)], pred[j], exp[j], float(numpy.float32(x[j]))), cfg=cfg)
 
 
-def make_tree(rng):
+def make_tree(rng, force=None):
     from sklearn.tree import DecisionTreeRegressor, DecisionTreeClassifier, ExtraTreeRegressor
     d = int(rng.randint(1, 6))
     n = int(rng.randint(5, 120))
     X = f32(rng.randn(n, d) * rng.choice([1.0, 10.0]))
     if rng.rand() < 0.3:
         X = f32(numpy.round(X))  # many duplicated values => thresholds between lattice points
-    kind = ["reg", "clf", "extra", "constant", "bestfirst-reg", "bestfirst-clf"][rng.randint(6)]
+    kind = ["reg", "clf", "extra", "constant", "bestfirst-reg", "bestfirst-clf", "nan-trained"][rng.randint(7)]
+    kind = force or kind
     depth = int(rng.randint(1, 9))
     y = X[:, 0] * 2 + numpy.sin(X[:, -1]) + rng.randn(n) * 0.1
-    if kind == "reg":
+    if kind == "nan-trained":
+        # missing values in the training set: scikit-learn sends them to one side and may later isolate them with
+        # a threshold of +inf; the targets of the rows with a hole are shifted so that the tree wants to do that
+        hole = rng.rand(n) < 0.25
+        col = int(rng.randint(d))
+        y = y + 5.0 * hole
+        X = X.copy()
+        X[hole, col] = numpy.nan
+    if kind in ("reg", "nan-trained"):
         m = DecisionTreeRegressor(max_depth=depth, random_state=0)
     elif kind == "clf":
         y = (y > numpy.median(y)).astype(int) + (X[:, 0] > 1).astype(int)
@@ -234,7 +245,7 @@ def in_box(box, Q):
 
 def run_tree(case, ctx):
     rng = numpy.random.RandomState(case["sub"] % (2 ** 31))
-    m, X, kind, depth = make_tree(rng)
+    m, X, kind, depth = make_tree(rng, case.get("force"))
     check_tree(case, ctx, rng, m, X, kind, depth, "")
     # the same estimator object fitted again (reversed targets keep the number of leaves and move them; other
     # rows change everything): the helpers describe the tree the model holds now
@@ -256,11 +267,13 @@ def check_tree(case, ctx, rng, m, X, kind, depth, suffix):
     cfg = {"tree": kind, "max_depth": depth, "n_features": d, "n_nodes": int(t.node_count), "sub": case["sub"]}
     ctx.cls("tree=" + kind)
     # query points: training points, thresholds themselves and their float32 neighbours, far points
-    Q = [X, f32(rng.randn(30, d) * 100)]
+    Q = [X[~numpy.isnan(X).any(axis=1)], f32(rng.randn(30, d) * 100)]
     inner = numpy.where(t.children_left != -1)[0]
     for node in inner[:40]:
         f, th = t.feature[node], t.threshold[node]
-        base = X[rng.randint(len(X), size=3)].copy()
+        base = numpy.nan_to_num(X[rng.randint(len(X), size=3)].copy(), nan=0.0)
+        if not numpy.isfinite(th):
+            continue
         dn, up = neighbours(th)
         for v in (float(numpy.float32(th)), float(dn), float(up)):
             q = base.copy()
